@@ -211,6 +211,50 @@ Proof.
   exact F.
 Qed.
 
+(* singular value thresholding against EVERY matrix: the nuclear norm is the dual of the spectral norm (nuc_le / is_nuc, ProxProofsSvt.v);
+   no decomposition of the competitor is needed *)
+Section ListSvdDual.
+Variables (m n k : nat) (U : list (list R)) (s : list R) (V M : list (list R)).
+Hypothesis Hk : (1 <= k)%nat.
+Hypothesis RU : rect m k U.
+Hypothesis Ls : length s = k.
+Hypothesis RV : rect k n V.
+Hypothesis HU : ocols m k (mfun U).
+Hypothesis HV : ocols n k (fun j l => mfun V l j).
+Hypothesis Hs : Forall (fun x => 0 <= x) s.
+Hypothesis HM : forall i j, (i < m)%nat -> (j < n)%nat -> mfun M i j = compose k (mfun U) (vfun s) (mfun V) i j.
+
+Theorem svt_list_output_nuc t : 0 <= t -> is_nuc m n (mfun (svd_thresholding_with Rops U s V t)) (lsum Rops (soft_thresholding Rops t s)).
+Proof.
+  intros Ht. destruct (soft_split_facts t k s Ht Ls Hs) as (A & B & Cc & D).
+  rewrite lsum_rsum, soft_length, Ls.
+  destruct (nuc_compose m n k (mfun U) (mfun V) HU HV (vfun (soft_thresholding Rops t s)) D) as [N1 (W & HW & EW)].
+  assert (E : forall W0, frob m n W0 (mfun (svd_thresholding_with Rops U s V t))
+                       = frob m n W0 (compose k (mfun U) (vfun (soft_thresholding Rops t s)) (mfun V))).
+  { intros W0. apply frob_ext; intros; [reflexivity | apply (svt_entries m n k U s V Hk RU Ls RV); assumption]. }
+  split.
+  - intros W0 HW0. rewrite E. apply N1, HW0.
+  - exists W. split; [exact HW | rewrite E; exact EW].
+Qed.
+Theorem svt_list_optimal_full t (Z : nat -> nat -> R) (nu : R) : 0 <= t -> nuc_le m n Z nu ->
+  t * lsum Rops (soft_thresholding Rops t s) + fro2 m n (mfun (svd_thresholding_with Rops U s V t)) (mfun M) / 2
+  <= t * nu + fro2 m n Z (mfun M) / 2.
+Proof.
+  intros Ht HZ. unfold fro2. destruct (soft_split_facts t k s Ht Ls Hs) as (A & B & Cc & D).
+  set (sf := vfun (soft_thresholding Rops t s)) in *.
+  rewrite (frob_ext m n (fun i j => mfun (svd_thresholding_with Rops U s V t) i j - mfun M i j)
+                    (fun i j => compose k (mfun U) sf (mfun V) i j - compose k (mfun U) (vfun s) (mfun V) i j)
+                    (fun i j => mfun (svd_thresholding_with Rops U s V t) i j - mfun M i j)
+                    (fun i j => compose k (mfun U) sf (mfun V) i j - compose k (mfun U) (vfun s) (mfun V) i j))
+    by (intros; rewrite (svt_entries m n k U s V Hk RU Ls RV), HM by assumption; reflexivity).
+  rewrite (frob_ext m n (fun i j => Z i j - mfun M i j) (fun i j => Z i j - compose k (mfun U) (vfun s) (mfun V) i j)
+                    (fun i j => Z i j - mfun M i j) (fun i j => Z i j - compose k (mfun U) (vfun s) (mfun V) i j))
+    by (intros; rewrite HM by assumption; reflexivity).
+  rewrite lsum_rsum, soft_length, Ls. fold sf.
+  apply (svt_optimal_dual m n k (mfun U) (vfun s) (mfun V) t HU HV Ht sf (fun l => vfun s l - sf l) A B Cc Z nu HZ).
+Qed.
+End ListSvdDual.
+
 Theorem procrustes_list_feasible (m n k : nat) (U V : list (list R)) :
   (1 <= k)%nat -> rect m k U -> rect k n V -> ocols m k (mfun U) -> ocols n k (fun j l => mfun V l j) ->
   (ocols k n (mfun V) -> ocols m n (mfun (procrustes_with Rops U V))) /\
